@@ -899,12 +899,18 @@ func (o *Node) setNotFound(path Path, n *Node) error {
 		size := int(thrift.BinaryEncoding{}.DecodeInt32(buf))
 		thrift.BinaryEncoding{}.EncodeInt32(buf, int32(size+1))
 	case thrift.MAP:
+		// the key must be encoded with the map's key type, which is the first byte of the
+		// map header (key type, value type, size) right before the insertion point
+		kt := thrift.Type(*(*byte)(rt.SubPtr(o.v, uintptr(6))))
+		key := path.ToRaw(kt)
+		if key == nil {
+			return errNode(meta.ErrDismatchType, fmt.Sprintf("path %s can't be a key of type %s", path, kt), nil)
+		}
 		// modify the original size
 		buf := rt.BytesFrom(rt.SubPtr(o.v, uintptr(4)), 4, 4)
 		size := int(thrift.BinaryEncoding{}.DecodeInt32(buf))
 		thrift.BinaryEncoding{}.EncodeInt32(buf, int32(size+1))
 		// add key bytes
-		key := path.ToRaw(n.t)
 		src := n.raw()
 		buf = make([]byte, 0, len(key)+len(src))
 		buf = append(buf, key...)
@@ -1023,7 +1029,9 @@ func (self *Node) SetMany(pathes []PathNode, opts *Options) (err error) {
 				sp = rt.AddPtr(self.v, 6)
 			}
 			ps.a[i].Node = errNotFoundLast(sp, self.t)
-			ps.a[i].Node.setNotFound(a.Path, &ps.b[i].Node)
+			if err = ps.a[i].Node.setNotFound(a.Path, &ps.b[i].Node); err != nil {
+				goto ret
+			}
 		}
 	}
 
